@@ -27,8 +27,14 @@ def gen_case(r):
     n = r.between(0, 5)
     rules = []
     for _ in range(n):
-        if rules and r.pct() < 15:
+        c0 = r.pct()
+        if rules and c0 < 15:
             rules.append(r.choice(rules))
+        elif rules and c0 < 30 and G.twin_path(r, rules[-1].path) is not None:
+            # a rule whose path equals an earlier one up to the TYPE of one primitive part
+            base = r.choice(rules)
+            tp = G.twin_path(r, base.path)
+            rules.append(base.replace(path=tp) if tp is not None else base)
         else:
             rl = G.rule_for(r, d, mode="typed", cond_depth=2, max_len=3)
             if r.coin(40):
@@ -37,7 +43,7 @@ def gen_case(r):
                     rl = rl.replace(cond=G.anchored_value_cond(r, r.choice(sel)[0], "typed", 1))
             rules.append(rl)
     perm_seeds = [[r.below(k + 1) for k in range(n)] for _ in range(12)] if n == 5 else []
-    return d, SchemaT(rules), perm_seeds
+    return d, SchemaT(rules), perm_seeds, G.twinned(r, d)
 
 
 def _perm_from(seed):
@@ -66,8 +72,19 @@ def path_named(report, path):
     return False
 
 
+def expectations(schema, doc):
+    per_rule = [model.ref_rule_test(rl, doc) for rl in schema.rules]
+    return {
+        "per_rule": per_rule,
+        "valid": all(t["valid"] for t in per_rule),
+        "nfail": sum(len(t["fails"]) for t in per_rule),
+        "ntested": sum(1 for t in per_rule if t["tested"]),
+        "pairs": sorted((i, tuple(exact(k) for k in p)) for i, t in enumerate(per_rule) for _, p in t["fails"]),
+    }
+
+
 def body(case):
-    doc, schema, perm_seeds = case
+    doc0, schema, perm_seeds, doc_twin = case
     out = Outcome()
     ns = build.ns()
     n = len(schema.rules)
@@ -80,16 +97,21 @@ def body(case):
         perms = list(itertools.permutations(range(n)))
     else:
         perms = sorted(set([tuple(range(n))] + [_perm_from(s) for s in perm_seeds]))
-    per_rule = [model.ref_rule_test(rl, doc) for rl in schema.rules]
-    exp_valid = all(t["valid"] for t in per_rule)
-    exp_nfail = sum(len(t["fails"]) for t in per_rule)
-    exp_ntested = sum(1 for t in per_rule if t["tested"])
-    exp_pairs = sorted((i, tuple(exact(k) for k in p)) for i, t in enumerate(per_rule) for _, p in t["fails"])
-    n_invalid = sum(1 for t in per_rule if not t["valid"])
+    # the same Schema object validates the document and then its type-twin (== to it, not
+    # type-exact): each must get its own judgement
+    docs = [doc0, doc_twin]
+    exps = [expectations(schema, d) for d in docs]
+    e0 = exps[0]
+    n_invalid = sum(1 for t in e0["per_rule"] if not t["valid"])
     out.nontrivial = n >= 2 and 0 < n_invalid < n and len(perms) >= 2
-    out.label(f"rules:{n}", "valid" if exp_valid else "invalid")
+    out.label(f"rules:{n}", "valid" if e0["valid"] else "invalid")
+    if exact(doc0) != exact(doc_twin) and (exps[0]["valid"], exps[0]["pairs"]) != (exps[1]["valid"], exps[1]["pairs"]):
+        out.label("twin-document-judged-differently")
     out.evals = 0
-    out.sample = f"{show(schema,450)} on {show(doc,150)} -> valid={exp_valid} nfail={exp_nfail} perms={len(perms)}"
+    out.sample = f"{show(schema,450)} on {show(doc0,150)} -> valid={e0['valid']} nfail={e0['nfail']} perms={len(perms)}"
+    ident = {}
+    for i, o in enumerate(robjs):
+        ident.setdefault(id(o), []).append(i)
     for pi in perms:
         out.evals += 1
         rules_pi = [robjs[i] for i in pi]
@@ -99,52 +121,54 @@ def body(case):
             exp_rules = [rules_pi[j] for j in order]
             if len(S.rules) != n or any(a is not b for a, b in zip(S.rules, exp_rules)):
                 out.add("stable-order", "stable-order", f"perm {pi}: rules not the stable sort by path length")
-            vd = S.validate(doc)
         except Exception as e:
-            out.exc("no-raise|validate", e)
+            out.exc("no-raise|schema", e)
             break
-        try:
-            if vd.is_valid is not exp_valid:
-                out.add("conjunction", "conjunction", f"perm {pi}: is_valid={vd.is_valid!r} expected {exp_valid}")
-            if vd.num_failures != exp_nfail:
-                out.add("failure-sum", "failure-sum", f"perm {pi}: num_failures={vd.num_failures} expected {exp_nfail}")
-            if vd.num_rules_tested != exp_ntested:
-                out.add("tested-count", "tested-count", f"perm {pi}: num_rules_tested={vd.num_rules_tested} expected {exp_ntested}")
-            if len(vd.rule_tests) != n:
-                out.add("every-rule-applied", "every-rule-applied", f"perm {pi}: {len(vd.rule_tests)} rule tests for {n} rules")
-            if n > 0 and vd.frac_rules_tested != exp_ntested / n:
-                out.add("tested-count", "frac-tested", f"perm {pi}: frac={vd.frac_rules_tested} expected {exp_ntested / n}")
-            ident = {id(o): [] for o in robjs}
-            for i, o in enumerate(robjs):
-                ident[id(o)].append(i)
-            got_pairs = []
-            # map each rule test back to an index of the term list (duplicates: by position in the sorted order)
-            used = {}
-            for rt in vd.rule_tests:
-                cands = ident.get(id(rt.rule))
-                if cands is None:
-                    out.add("every-rule-applied", "foreign-rule", f"perm {pi}: rule test for a rule not in the schema")
-                    continue
-                k = used.get(id(rt.rule), 0)
-                used[id(rt.rule)] = k + 1
-                i = cands[min(k, len(cands) - 1)]
-                for f in rt.failures:
-                    got_pairs.append((i, tuple(exact(x) for x in f.path)))
-            if sorted(got_pairs) != exp_pairs:
-                out.add("failing-pairs", "failing-pairs", f"perm {pi}: (rule, failing path) pairs {sorted(got_pairs)!r} expected {exp_pairs!r}"[:600])
-            rep = vd.get_failures_string()
-            if not isinstance(rep, str):
-                out.add("report-is-string", "report-is-string|" + ("valid" if exp_valid else "invalid"),
-                        f"get_failures_string() returned {rep!r} (valid={exp_valid})")
-            elif exp_nfail:
-                for i, t in enumerate(per_rule):
-                    for _, p in t["fails"]:
-                        if not path_named(rep, p):
-                            out.add("report-names-paths", "report-names-paths", f"failing path {p!r} not named in report {rep!r}"[:600])
-                            break
-        except Exception as e:
-            out.exc("no-raise|aggregates", e)
-            break
+        for di, (doc, ex) in enumerate(zip(docs, exps)):
+            which = "" if di == 0 else "|second-document"
+            try:
+                vd = S.validate(doc)
+            except Exception as e:
+                out.exc("no-raise|validate", e)
+                break
+            try:
+                if vd.is_valid is not ex["valid"]:
+                    out.add("conjunction", "conjunction" + which, f"perm {pi} doc {di}: is_valid={vd.is_valid!r} expected {ex['valid']}")
+                if vd.num_failures != ex["nfail"]:
+                    out.add("failure-sum", "failure-sum" + which, f"perm {pi} doc {di}: num_failures={vd.num_failures} expected {ex['nfail']}")
+                if vd.num_rules_tested != ex["ntested"]:
+                    out.add("tested-count", "tested-count" + which, f"perm {pi} doc {di}: num_rules_tested={vd.num_rules_tested} expected {ex['ntested']}")
+                if len(vd.rule_tests) != n:
+                    out.add("every-rule-applied", "every-rule-applied", f"perm {pi}: {len(vd.rule_tests)} rule tests for {n} rules")
+                if n > 0 and vd.frac_rules_tested != ex["ntested"] / n:
+                    out.add("tested-count", "frac-tested", f"perm {pi}: frac={vd.frac_rules_tested} expected {ex['ntested'] / n}")
+                got_pairs = []
+                used = {}
+                for rt in vd.rule_tests:
+                    cands = ident.get(id(rt.rule))
+                    if cands is None:
+                        out.add("every-rule-applied", "foreign-rule", f"perm {pi}: rule test for a rule not in the schema")
+                        continue
+                    k = used.get(id(rt.rule), 0)
+                    used[id(rt.rule)] = k + 1
+                    i = cands[min(k, len(cands) - 1)]
+                    for f in rt.failures:
+                        got_pairs.append((i, tuple(exact(x) for x in f.path)))
+                if sorted(got_pairs) != ex["pairs"]:
+                    out.add("failing-pairs", "failing-pairs" + which, f"perm {pi} doc {di}: (rule, failing path) pairs {sorted(got_pairs)!r} expected {ex['pairs']!r}"[:600])
+                rep = vd.get_failures_string()
+                if not isinstance(rep, str):
+                    out.add("report-is-string", "report-is-string|" + ("valid" if ex["valid"] else "invalid"),
+                            f"get_failures_string() returned {rep!r} (valid={ex['valid']})")
+                elif ex["nfail"]:
+                    for i, t in enumerate(ex["per_rule"]):
+                        for _, p in t["fails"]:
+                            if not path_named(rep, p):
+                                out.add("report-names-paths", "report-names-paths", f"failing path {p!r} not named in report {rep!r}"[:600])
+                                break
+            except Exception as e:
+                out.exc("no-raise|aggregates", e)
+                break
         if out.violations:
             break
     return out
